@@ -87,9 +87,9 @@ fn gas() -> impl Strategy<Value = GasA> {
 fn op() -> impl Strategy<Value = Op> {
     prop_oneof![
         2 => (0u8..2, prop_oneof![Just(NCfg::Supply1000NoMinter), Just(NCfg::Supply0Minter), Just(NCfg::Supply0NoMinter)]).prop_map(|(slot, cfg)| Op::Deploy { slot, cfg }),
-        2 => (0u8..2).prop_map(|slot| Op::Register { slot }),
-        8 => (0u8..NU as u8, 0u8..4, 0u8..3, amt(), proptest::option::of(0u8..40), gas()).prop_map(|(user, tok, chain, amount, data, gas)| Op::Out { user, tok, chain, amount, data, gas }),
-        7 => (0u8..4, 0u8..(NU as u8 + 1), 0u8..3, amt(), proptest::option::of(0u8..40)).prop_map(|(tok, to, origin, amount, data)| Op::In { tok, to, origin, amount, data }),
+        2 => (0u8..3).prop_map(|slot| Op::Register { slot }),
+        8 => (0u8..NU as u8, 0u8..5, 0u8..3, amt(), proptest::option::of(0u8..40), gas()).prop_map(|(user, tok, chain, amount, data, gas)| Op::Out { user, tok, chain, amount, data, gas }),
+        7 => (0u8..5, 0u8..(NU as u8 + 1), 0u8..3, amt(), proptest::option::of(0u8..40)).prop_map(|(tok, to, origin, amount, data)| Op::In { tok, to, origin, amount, data }),
         3 => (0u8..3).prop_map(Op::Trust),
         1 => (0u8..3).prop_map(Op::Untrust),
         1 => (0u8..2, 0u8..NU as u8, 1u8..100).prop_map(|(slot, to, amount)| Op::MinterMint { slot, to, amount }),
@@ -110,7 +110,10 @@ impl Property for C05 {
         "C05"
     }
     fn rule(&self) -> &'static str {
-        "proptest histories (<=25 quick / <=45 thorough ops) over 2 ITS-deployed tokens (initial supply 1000 / 0, with / without minter), 2 registered canonical Stellar assets, 4 users, an executable probe, 3 chains: deployments, registrations, outbound transfers (amount 0, -1, 1, small, balance, balance+1, custody, custody+1; data absent / present; gas 0, -1, 1, all, all+1), approved inbound transfers (to users or to the executable with data; amounts up to custody+1), trusted-chain changes, minter mints, transfers of unknown token ids. Oracle: ledger model of every balance, custody per canonical token and supply per deployed token, compared after every step (custody = token balance of the service, never negative; supply = sum of balances over the closed address pool); successful outbound = exactly sender -amount, payer -gas, gas service +gas, one contract_called whose payload equals the harness's own ABI encoding of SendToHub{chain, Transfer{id, XDR(sender), destination, amount, data}}, a gas payment event carrying keccak(payload), payer and amount, and a service event naming token, sender and amount; inbound credits exactly the amount and the service event names token, recipient and amount; every refused call leaves the ledger snapshot identical. The configuration of known finding C11 (supply>0 with minter) is excluded by construction. non-trivial = history has transfers in both directions on a canonical token, or a failing attempt between two successful transfers; distinct by Debug hash"
+        "proptest histories (<=25 quick / <=45 thorough ops) over 2 ITS-deployed tokens (initial supply 1000 / 0, with / without minter), 2 registered canonical Stellar assets plus a canonical harness token that checks neither sign nor balance, 4 users, an executable probe, 3 chains: deployments, registrations, outbound transfers (amount 0, -1, 1, small, balance, balance+1, custody, custody+1; data absent / present; gas 0, -1, 1, all, all+1), approved inbound transfers (to users or to the executable with data; amounts up to custody+1), trusted-chain changes, minter mints, transfers of unknown token ids. Oracle: ledger model of every balance, custody per canonical token and supply per deployed token, compared after every step (custody = token balance of the service, never negative; supply = sum of balances over the closed address pool); successful outbound = exactly sender -amount, payer -gas, gas service +gas, one contract_called whose payload equals the harness's own ABI encoding of SendToHub{chain, Transfer{id, XDR(sender), destination, amount, data}}, a gas payment event carrying keccak(payload), payer and amount, and a service event naming token, sender and amount; inbound credits exactly the amount and the service event names token, recipient and amount; every refused call leaves the ledger snapshot identical. The configuration of known finding C11 (supply>0 with minter) is excluded by construction. non-trivial = history has transfers in both directions on a canonical token, or a failing attempt between two successful transfers; distinct by Debug hash"
+    }
+    fn assumptions(&self) -> Vec<&'static str> {
+        vec!["with the unchecked harness token, a transfer beyond the sender's balance / the custody is the token's business, not the service's (Either, effects still tracked)"]
     }
     fn cases(&self, tier: Tier) -> u64 {
         tier.pick(2500, 40000)
@@ -144,12 +147,19 @@ impl Property for C05 {
         let env = &w.env;
         let exec_id = env.register(TokenExec, (w.its.id.clone(),));
         let exec = TokenExecClient::new(env, &exec_id);
-        let assets = [w.new_asset(), w.new_asset()];
-        for a in &assets {
+        // third "asset": a harness token that checks neither sign nor balance, so that the
+        // service's own amount checks are observable on the lock/unlock path
+        let sloppy_id = env.register(crate::probes::SloppyToken, ());
+        let assets = [w.new_asset(), w.new_asset(), sloppy_id.clone()];
+        for a in &assets[..2] {
             for u in &w.users {
                 w.mint_asset(a, u, START_ASSET);
             }
         }
+        for u in &w.users {
+            crate::probes::SloppyTokenClient::new(env, &sloppy_id).mint(u, &START_ASSET);
+        }
+        const SLOPPY: usize = 4;
         for u in &w.users {
             w.fund_gas(u, START_GAS);
         }
@@ -161,14 +171,14 @@ impl Property for C05 {
         let its_i = NU + 1;
         let gs_i = NU + 2;
         // token slots: 0,1 native ; 2,3 canonical
-        let mut toks: [Option<Tok>; 4] = [None, None, None, None];
-        let mut bal: Vec<[i128; 7]> = vec![[0; 7]; 4]; // [tok][pool idx]
+        let mut toks: [Option<Tok>; 5] = [None, None, None, None, None];
+        let mut bal: Vec<[i128; 7]> = vec![[0; 7]; 5]; // [tok][pool idx]
         let mut gasbal: [i128; 7] = [0; 7];
         for i in 0..NU {
             gasbal[i] = START_GAS;
         }
-        let mut asset_bal: Vec<[i128; 7]> = vec![[0; 7]; 2]; // balances of the two assets even before registration
-        for a in 0..2 {
+        let mut asset_bal: Vec<[i128; 7]> = vec![[0; 7]; 3]; // balances of the two assets even before registration
+        for a in 0..3 {
             for i in 0..NU {
                 asset_bal[a][i] = START_ASSET;
             }
@@ -226,7 +236,7 @@ impl Property for C05 {
                     toks[s] = Some(Tok { id, addr, native: true, minter });
                 }
                 Op::Register { slot } => {
-                    let s = *slot as usize % 2;
+                    let s = *slot as usize % 3;
                     if toks[2 + s].is_some() {
                         continue;
                     }
@@ -264,7 +274,7 @@ impl Property for C05 {
                 }
                 Op::Out { user, tok, chain, amount, data, gas } => {
                     let u = *user as usize % NU;
-                    let ti = *tok as usize % 4;
+                    let ti = *tok as usize % 5;
                     let c = *chain as usize % 3;
                     let registered = toks[ti].is_some();
                     let (tid, b) = match &toks[ti] {
@@ -291,7 +301,10 @@ impl Property for C05 {
                     };
                     let data_b: Option<Vec<u8>> = data.map(|l| seeded_bytes(step as u64, l as usize));
                     let dest_b = seeded_bytes(77 + step as u64, 20);
-                    let expect_ok = registered && a > 0 && a <= b && trusted[c] && g > 0 && g <= gasbal[u];
+                    let base_ok = registered && a > 0 && trusted[c] && g > 0 && g <= gasbal[u];
+                    // the balance check is the token's; the unchecked harness token does not make it
+                    let undecided = ti == SLOPPY && base_ok && a > b;
+                    let expect_ok = base_ok && a <= b;
                     let snap0 = snapshot(env);
                     let ev0 = events_len(env);
                     let r = w.its.client.try_interchain_transfer(
@@ -304,8 +317,13 @@ impl Property for C05 {
                         &Token { address: w.gas_asset.clone(), amount: g },
                     );
                     let ok = matches!(r, Ok(Ok(())));
-                    if expect_ok {
-                        cx.count("must_succeed");
+                    if undecided {
+                        cx.count("either");
+                    }
+                    if expect_ok || (undecided && ok) {
+                        if expect_ok {
+                            cx.count("must_succeed");
+                        }
                         ensure_p!(ok, "step {}: outbound transfer refused (amount {}, balance {}, gas {}, trusted {}): {:?}", step, a, b, g, trusted[c], r);
                         bal[ti][u] -= a;
                         if ti < 2 {
@@ -365,7 +383,9 @@ impl Property for C05 {
                             sent[0].1
                         );
                     } else {
-                        cx.count("must_fail");
+                        if !undecided {
+                            cx.count("must_fail");
+                        }
                         ensure_p!(!ok, "step {}: outbound transfer accepted (registered {}, amount {}, balance {}, trusted {}, gas {} of {})", step, registered, a, b, trusted[c], g, gasbal[u]);
                         ensure_p!(snapshot(env) == snap0, "step {}: refused outbound transfer changed the ledger", step);
                         ensure_p!(events_len(env) == ev0, "step {}: refused outbound transfer emitted events", step);
@@ -375,7 +395,7 @@ impl Property for C05 {
                     }
                 }
                 Op::In { tok, to, origin, amount, data } => {
-                    let ti = *tok as usize % 4;
+                    let ti = *tok as usize % 5;
                     let o = *origin as usize % 3;
                     let to_i = if data.is_some() { NU } else { *to as usize % NU }; // data goes to the executable
                     let registered = toks[ti].is_some();
@@ -396,12 +416,18 @@ impl Property for C05 {
                     let payload = ItsWorld::receive_payload(CHAINS[o], &inner);
                     let mid = w.next_message_id();
                     w.approve_for_its(HUB_CHAIN, &mid, HUB_ADDR, &payload)?;
+                    let undecided = ti == SLOPPY && registered && trusted[o] && a > custody;
                     let expect_ok = registered && trusted[o] && (ti < 2 || a <= custody);
                     let snap0 = snapshot(env);
                     let ev0 = events_len(env);
                     let r = w.execute(HUB_CHAIN, &mid, HUB_ADDR, &payload);
-                    if expect_ok {
-                        cx.count("must_succeed");
+                    if undecided {
+                        cx.count("either");
+                    }
+                    if expect_ok || (undecided && r.is_ok()) {
+                        if expect_ok {
+                            cx.count("must_succeed");
+                        }
                         ensure_p!(r.is_ok(), "step {}: approved inbound transfer refused (amount {}, custody {}): {:?}", step, a, custody, r);
                         bal[ti][to_i] += a;
                         if ti < 2 {
@@ -429,7 +455,9 @@ impl Property for C05 {
                             ensure_p!(rec.amount == a && rec.token_id.to_array() == tid && rec.payload.to_alloc_vec() == data_b && rec.balance_seen == bal[ti][to_i], "step {}: executable saw wrong data: {:?}", step, rec);
                         }
                     } else {
-                        cx.count("must_fail");
+                        if !undecided {
+                            cx.count("must_fail");
+                        }
                         ensure_p!(r.is_err(), "step {}: inbound transfer accepted (registered {}, origin trusted {}, amount {}, custody {})", step, registered, trusted[o], a, custody);
                         ensure_p!(snapshot(env) == snap0, "step {}: refused inbound transfer changed the ledger", step);
                         ensure_p!(events_len(env) == ev0, "step {}: refused inbound transfer emitted events", step);
@@ -444,20 +472,20 @@ impl Property for C05 {
                 nontrivial |= successes >= 2;
             }
             // ---- sweep
-            for ti in 0..4 {
+            for ti in 0..5 {
                 if let Some(t) = &toks[ti] {
                     let tc = TokenClient::new(env, &t.addr);
                     let mut sum = 0i128;
                     for (i, a) in pool.iter().enumerate() {
                         let b = tc.balance(a);
                         ensure_p!(b == bal[ti][i], "after step {} {:?}: token slot {} balance of pool[{}] = {} but the ledger model says {}", step, op, ti, i, b, bal[ti][i]);
-                        ensure_p!(b >= 0, "negative balance");
+                        ensure_p!(b >= 0 || ti == SLOPPY, "negative balance");
                         sum += b;
                     }
                     if t.native {
                         ensure_p!(sum == supply[ti], "after step {}: supply of deployed token {} is {} but burns/mints/initial supply give {}", step, ti, sum, supply[ti]);
                     } else {
-                        ensure_p!(bal[ti][its_i] >= 0, "custody negative");
+                        ensure_p!(bal[ti][its_i] >= 0 || ti == SLOPPY, "custody negative");
                     }
                 }
             }
